@@ -24,6 +24,8 @@ type Sem struct {
 	trueCache                                                      map[string][]Atom
 	unresolved                                                     []string
 	anch                                                           *Anchors
+	relCache                                                       map[*ssa.Function][2]bool
+	mutCache                                                       map[*ssa.Function]bool
 }
 
 // Atom is a guard fact. Param>=0 means Val must be substituted from the caller's argument.
@@ -42,7 +44,7 @@ func (a Atom) String() string {
 
 func newSem(p *Prog) *Sem {
 	s := &Sem{p: p, nilCache: map[*ssa.Function][]Atom{}, nilBusy: map[*ssa.Function]bool{}, trueCache: map[string][]Atom{},
-		stateGetters: map[*ssa.Function]bool{}, stateSetters: map[*ssa.Function]bool{}}
+		stateGetters: map[*ssa.Function]bool{}, stateSetters: map[*ssa.Function]bool{}, relCache: map[*ssa.Function][2]bool{}}
 	need := func(n string) *types.Named {
 		t := p.Type(n)
 		if t == nil {
@@ -367,20 +369,62 @@ func (s *Sem) nilFacts(fn *ssa.Function, depth int) []Atom {
 		sets = append(sets, s.nilSets(ev, r.Block(), depth)...)
 	})
 	res := intersectAtoms(sets)
+	if s.mayChangeState(fn) {
+		// facts about the state checked on entry are stale once the function itself moved the state
+		var keep []Atom
+		for _, a := range res {
+			if a.Kind != "state==" && a.Kind != "state!=" {
+				keep = append(keep, a)
+			}
+		}
+		res = keep
+	}
 	s.nilCache[fn] = res
 	return res
 }
 
+// mayChangeState: fn transitively (static calls) reaches a function that stores channel.state.
+func (s *Sem) mayChangeState(fn *ssa.Function) bool {
+	if s.mutCache == nil {
+		s.mutCache = map[*ssa.Function]bool{}
+		for f := range s.stateSetters {
+			s.mutCache[f] = true
+		}
+		for changed := true; changed; {
+			changed = false
+			for _, f := range s.p.LimeFuncs() {
+				if s.mutCache[f] {
+					continue
+				}
+				eachCall(f, func(c ssa.CallInstruction) {
+					if _, isGo := c.(*ssa.Go); isGo {
+						return
+					}
+					if g := staticCallee(c); g != nil && s.mutCache[g] && !s.mutCache[f] {
+						s.mutCache[f] = true
+						changed = true
+					}
+				})
+			}
+		}
+	}
+	return s.mutCache[fn]
+}
+
 // nilSets: one fact set per way value ev (an error) may be nil when control is in block b.
 func (s *Sem) nilSets(ev ssa.Value, b *ssa.BasicBlock, depth int) [][]Atom {
+	return s.nilSetsTo(ev, b, nil, depth)
+}
+
+func (s *Sem) nilSetsTo(ev ssa.Value, b, to *ssa.BasicBlock, depth int) [][]Atom {
 	var sets [][]Atom
-	if knownNonNil(ev, b) {
+	if knownNonNilEdge(ev, b, to) {
 		return nil // `if err != nil { return err }`: cannot be nil here
 	}
 	switch x := ev.(type) {
 	case *ssa.Phi:
 		for i, e := range x.Edges {
-			sets = append(sets, s.nilSets(e, x.Block().Preds[i], depth)...)
+			sets = append(sets, s.nilSetsTo(e, x.Block().Preds[i], x.Block(), depth)...)
 		}
 		return sets
 	case *ssa.Const:
@@ -497,6 +541,37 @@ func (s *Sem) recvKind(fn *ssa.Function) string {
 		return "channel"
 	}
 	return n.Obj().Name()
+}
+
+// knownNonNilEdge: v flows along the CFG edge from→to; non-nil if from is guarded, or the edge itself is the v != nil branch.
+func knownNonNilEdge(v ssa.Value, from, to *ssa.BasicBlock) bool {
+	if knownNonNil(v, from) {
+		return true
+	}
+	if from == nil || to == nil {
+		return false
+	}
+	ifi := ifOf(from)
+	if ifi == nil {
+		return false
+	}
+	for k, sx := range from.Succs {
+		if sx != to {
+			continue
+		}
+		c := condOn(ifi, k == 0)
+		if c.Op != token.NEQ {
+			return false
+		}
+		x, y := c.X, c.Y
+		if isNilConst(x) {
+			x, y = y, x
+		}
+		if !isNilConst(y) || x != v {
+			return false
+		}
+	}
+	return true
 }
 
 // knownNonNil: block b is only reached through an edge on which v != nil.
